@@ -950,7 +950,7 @@ func C03() *check.Property {
 		Title:    "Teardown runs exactly once; closed subscriptions hold nothing upstream",
 		Patterns: cat(CorePatterns, PluginPkgs, []string{PromPkg}, RatePkgs),
 		Scope:    []string{ro},
-		Rules:    []check.Rule{ruleRelease(), ruleSelfUnsubscribe(), ruleAddTeardown(), ruleFinalizerDiscipline(), ruleTeardownAllRun(), ruleStateLevel(), ruleNoEmitUnderTeardownLock(), ruleCoreDelivers(), ruleNilGuardPolarity(), ruleAwaitedRegistered(), ruleSubjectDelivers(), ruleAddAfterClose()},
+		Rules:    []check.Rule{ruleRelease(), ruleSelfUnsubscribe(), ruleAddTeardown(), ruleFinalizerDiscipline(), ruleTeardownAllRun(), ruleStateLevel(), ruleNoEmitUnderTeardownLock(), ruleCoreDelivers(), ruleNilGuardPolarity(), ruleAwaitedRegistered(), ruleSubjectDelivers(), ruleAddAfterClose(), ruleGoLateRegistration()},
 		Explanation: "Static ownership/typestate check. RELEASE builds, per subscribe closure, a resource graph (subscriptions returned by subscribe sites, composite subscriptions, slices of subscriptions, timers, goroutines with their stop channels) " +
 			"and proves that every acquisition reaches a node that the operator's teardown chain unsubscribes/stops/closes (teardown closures count only when the subscription they were Add()ed to is itself released), or is awaited. " +
 			"SELF-UNSUBSCRIBE, ADD-TEARDOWN and FINALIZER-DISCIPLINE check the three core mechanisms the chain relies on: a subscriber runs its finalizers after every terminal notification (outside the producer lock), the subscribe function's " +
